@@ -230,7 +230,7 @@ def dictated_stats(rng):
     return ('tie', 'tie')                                # same stats as the current point: logar = 0 exactly (symmetric case)
 
 
-def lattice_check(rng, out):
+def lattice_check(rng, out, frac=None):
     """Exact transition matrix of real steps on a finite lattice (bounded discrete proposal, every proposal forced by a
     scripted normal draw, accept probability read from the recorded ratio): pi P = pi for pi = prior x likelihood^beta."""
     lo, hi = 0, rng.choice([3, 4, 5])
@@ -244,8 +244,12 @@ def lattice_check(rng, out):
         def __call__(self, k):
             return logl[int(k)], logp[int(k)]
     model = M()
-    prop = P.BoundedDiscrete(['k'], {'k': (lo, hi)}, cov=[sigma ** 2])
+    # boundaries may be given as non-integers: "the floor (ceil) of the lower (upper) bound will be used" - the lattice is the same
+    frac = (rng.random() < 0.5) if frac is None else frac
+    bnds = (lo + 0.5, hi - 0.5) if frac else (lo, hi)
+    prop = P.BoundedDiscrete(['k'], {'k': bnds}, cov=[sigma ** 2])
     ch = Chain(['k'], model, [prop], bit_generator=3, beta=beta)
+    out.count('lattice_bounds_fractional' if frac else 'lattice_bounds_integer')
     n = len(states)
     Pm = numpy.zeros((n, n))
     # law of the jump: dx = sign(z)ceil|z| of z ~ N(0,sigma), redrawn until lo <= x+dx <= hi (dx != 0 a.s.)
@@ -263,12 +267,24 @@ def lattice_check(rng, out):
             ch._positions.clear(1); ch._stats.clear(1); ch._acceptance.clear(1)
             z = (y - x) - 0.5 if y > x else (y - x) + 0.5        # a draw in the middle of the cell of y
 
+            ndraws = [0]
+
             def scr(owner, name, a, k, real):
                 if name == 'normal':
+                    ndraws[0] += 1
+                    if ndraws[0] > 1:
+                        raise TimeoutError('the scripted draw was refused')
                     return z
                 return real(*a, **k)
-            with GenTap(script=scr):
-                ch.step()
+            try:
+                with GenTap(script=scr):
+                    ch.step()
+            except TimeoutError:
+                return ('a bounded discrete proposal with boundaries %s refused the jump %d -> %d, which its documented support '
+                        '(floor/ceil of the boundaries) contains' % (bnds, x, y)), dict(lo=lo, hi=hi, boundaries=bnds, sigma=sigma, x=x, y=y)
+            except ValueError as e:
+                return ('a step from the lattice point %d of a bounded discrete proposal with boundaries %s (documented support: floor/ceil of '
+                        'the boundaries) raised %r' % (x, bnds, e)), dict(lo=lo, hi=hi, boundaries=bnds, sigma=sigma, x=x, y=y)
             out.evaluations += 1
             if int(ch.proposed_position['k']) != y:
                 return 'scripted draw %r from %d proposed %r, cell of %d expected' % (z, x, ch.proposed_position['k'], y), dict(x=x, y=y)
@@ -282,7 +298,7 @@ def lattice_check(rng, out):
     out.count('lattices')
     if d > 1e-12:
         return ('prior x likelihood^beta is not stationary for the exact kernel of real steps on a %d-state lattice (|pi P - pi| = %.3g)'
-                % (n, d)), dict(lo=lo, hi=hi, sigma=sigma, beta=beta, logl=logl, logp=logp)
+                % (n, d)), dict(lo=lo, hi=hi, boundaries=bnds, sigma=sigma, beta=beta, logl=logl, logp=logp)
     return None, None
 
 
@@ -392,8 +408,8 @@ def run(seed, tier):
     for t, m in extra:
         terms.append(t)
         meta.append(m)
-    for _ in range(60 if thorough else 2):
-        what, rep = lattice_check(rng, out)
+    for i_ in range(60 if thorough else 4):
+        what, rep = lattice_check(rng, out, frac=(i_ % 2 == 1))
         if what:
             out.violations.append(dict(what=what, replay=rep))
     failing = core.run_coq_cases('C01', HEADER, terms, per_file=500)
